@@ -60,9 +60,13 @@ def all_subjects(tier):
 
 def bounds(tier):
     q = tier == "quick"
-    return {"subjects": [s.name for s in all_subjects(tier)], "pools": ["line4", "dup4"], "history_length": 3, "fit_modes": ["fit", "prefit"],
+    return {"multi_annotator_subjects": MULTI, "subjects": [s.name for s in all_subjects(tier)], "pools": ["line4", "dup4"], "history_length": 3, "fit_modes": ["fit", "prefit"],
             "candidate_modes": ["none", "idx(all unlabeled)", "rows"], "batch_sizes": [1, 2], "labelings": "all of {missing,0,1}^4" if not q else
             "every 2nd labeling of {missing,0,1}^4 (every 4th for expensive subjects)"}
+
+
+MULTI = ["SingleAnnotatorWrapper[RandomSampling]", "SingleAnnotatorWrapper[UncertaintySampling[entropy]]", "SingleAnnotatorWrapper[ProbabilisticAL]",
+         "IntervalEstimationThreshold"]
 
 
 def shards(tier, seed):
@@ -70,10 +74,14 @@ def shards(tier, seed):
     for s in all_subjects(tier):
         for fm in ("fit", "prefit"):
             out.append({"tier": tier, "subject": s.name, "fit": fm})
+    for m in MULTI:
+        out.append({"tier": tier, "subject": m, "fit": "multi"})
     return out
 
 
 def shard_cost(spec):
+    if spec["fit"] == "multi":
+        return 2
     return by_name(spec["subject"]).cost
 
 
@@ -250,9 +258,89 @@ def _model_diff(m):
     return "fitted attributes now " + str(sorted(k for k in m.__dict__ if k.endswith("_"))[:8])
 
 
+def check_multi(acc, name, only=None):
+    """multi-annotator strategies: histories of 2 consecutive queries on one strategy object"""
+    from checks import c07
+
+    X = c07.X3
+    cases = [c for i, c in enumerate(c07.gen_cases(name, "quick")) if i % 7 == 0]
+    qs, extra, inner = c07.make_strategy(name)
+    with warnings.catch_warnings():
+        warnings.simplefilter("ignore")
+        p0 = F.params_dict_fp(qs)
+        kw = dict(extra or {})
+        kw.update(c07.inner_kwargs(inner, X))
+        mfp0 = {k: model_fp(v, False) for k, v in kw.items() if hasattr(v, "get_params") or isinstance(v, list)}
+        for ci, (y, cand, annot) in enumerate(cases):
+            if only is not None and ci != only:
+                continue
+            if isinstance(cand, tuple):
+                rows = X[cand[1]]
+                cand_arg = np.vstack([rows, c07.FOREIGN]) if cand[2] else rows
+            else:
+                cand_arg = None if cand is None else np.array(cand)
+            avail = c07.available_pairs(y, cand, annot, None if not isinstance(cand, tuple) else len(cand_arg))
+            m = y.shape[1]
+            cnt = {}
+            for r, a in avail:
+                cnt[r] = cnt.get(r, 0) + 1
+            n_rows = len(cand_arg) if isinstance(cand, tuple) else (len(X) if cand is None else len(cand))
+            if not avail or len(cnt) < n_rows:
+                continue  # empty availability rows: known non-termination (C07)
+            if name == "IntervalEstimationThreshold" and any(0 < c < m for c in cnt.values()):
+                continue
+            key = (name, ci)
+            inputs = {"X": X.copy(), "y": y.copy()}
+            if cand_arg is not None:
+                inputs["candidates"] = cand_arg.copy()
+            if annot is not None:
+                inputs["annotators"] = annot.copy()
+            call = dict(kw)
+            if name != "IntervalEstimationThreshold":
+                inputs["A_perf"] = np.array([0.5, 0.25])
+                call["A_perf"] = inputs["A_perf"]
+                call["n_annotators_per_sample"] = 2
+            before = {k: v.copy() for k, v in inputs.items()}
+            np.random.seed(PR.GLOBAL_SEED)
+            try:
+                with T.ties(T.Tape()), T.rng_override(PR.rng_factory):
+                    qs.query(inputs["X"], inputs["y"], candidates=inputs.get("candidates"), annotators=inputs.get("annotators"), batch_size=2,
+                             return_utilities=True, **call)
+            except Exception as e:
+                acc.case(key, trivial=True)
+                continue
+            acc.transitions += 1
+            acc.case(key)
+            acc.traces_validated += 1
+            wit = {"subject": name, "case": ci, "y": y.tolist(), "candidates": None if cand is None else repr(cand), "annotators": None if annot is None else annot.tolist()}
+            rep = {"subject": name, "fit": "multi", "case": ci, "history": []}
+            for k, v0 in before.items():
+                v = inputs[k]
+                if v.dtype != v0.dtype or v.shape != v0.shape or not np.array_equal(v, v0, equal_nan=(v.dtype.kind == "f")):
+                    acc.violation(name, "input_modified:" + k, "query changed argument %s from %s to %s" % (k, v0.tolist(), v.tolist()), wit, {"fit": "multi"}, rep, ci)
+            for k, f0 in mfp0.items():
+                if model_fp(kw[k], False) != f0:
+                    acc.violation(name, "caller_model_modified", "query altered the caller's %s object" % k, wit, {"fit": "multi", "model": k}, rep, ci)
+            now = F.params_dict_fp(qs)
+            if now != p0:
+                ch = sorted(k for k in set(now) | set(p0) if now.get(k) != p0.get(k))
+                acc.violation(name, "get_params_changed", "query changed constructor parameters %s" % ch, wit, {"params": ",".join(ch[:3]), "fit": "multi"}, rep, ci)
+                p0 = now
+            try:
+                pickle.dumps(qs)
+            except Exception as e:
+                acc.violation(name, "strategy_not_picklable", "%s: %s" % (type(e).__name__, str(e)[:100]), wit, {"fit": "multi"}, rep, ci)
+            if ci % 50 == 0:
+                acc.sample({"subject": name, "y": y.tolist(), "candidates": None if cand is None else repr(cand), "annotators": None if annot is None else annot.tolist()}, limit=1)
+
+
 def run_shard(spec):
     T.install()
     acc = Acc()
+    if spec["fit"] == "multi":
+        check_multi(acc, spec["subject"])
+        acc.states = len(acc.nontrivial)
+        return acc
     subj = by_name(spec["subject"])
     qs = enumerate_queries(subj, spec["tier"])
     for i in range(0, len(qs)):
@@ -272,6 +360,9 @@ def run_shard(spec):
 def replay(spec):
     T.install()
     acc = Acc()
+    if spec["fit"] == "multi":
+        check_multi(acc, spec["subject"])
+        return [(s, k) for (s, k, _p) in acc.groups]
     subj = by_name(spec["subject"])
     hist = []
     for pname, lab, mode, bs in spec["history"]:
